@@ -18,7 +18,7 @@ from ..native import Pool
 from ..tlc import MachineryError, run_tlc, workdir
 from . import _pipe
 
-PARAMS = {"quick": dict(per=2, tries=40, inputs=4, caps=[1]), "thorough": dict(per=12, tries=300, inputs=10, caps=[1, 2, None])}
+PARAMS = {"quick": dict(per=4, tries=60, inputs=4, caps=[1]), "thorough": dict(per=12, tries=300, inputs=10, caps=[1, 2, None])}
 MAPS = ["triple", "zero"]
 
 
